@@ -95,6 +95,22 @@ class Heap:
             del self.comps[key]
         self.epoch += 1
 
+    def havoc_above(self, base, all_keys, keep=()):
+        """an opaque call that may write anything in objects with id >= base (and nothing below): every component gets a
+        fresh symbol that agrees with the old one below `base`.  Returns the frame facts.  Components that are not in
+        `all_keys` and were never touched fall under the epoch rule (unknown after the call)."""
+        facts = []
+        r = z3.Int("r!above")
+        for key in list(all_keys) + [kx for kx in self.comps if kx not in all_keys]:
+            if key[0] in ("cls", "g") or key in keep:
+                continue
+            old = self.get(key)
+            new = fresh("hva_" + "_".join(str(x) for x in key).replace(":", "."), heap_sort(key))
+            self.comps[key] = new
+            facts.append(z3.ForAll([r], z3.Implies(z3.And(r > 0, r < base), z3.Select(new, r) == z3.Select(old, r))))
+        self.epoch += 1
+        return facts
+
     def set(self, key, term):
         self.get(key)  # make sure the initial symbol exists
         self.comps[key] = term
